@@ -7,6 +7,8 @@ C02's leaf accounting for errors raised by the child while it unwinds.
 
 from __future__ import annotations
 
+from ..collect import guarded
+
 import itertools
 
 from .. import treecheck, treefam
@@ -49,11 +51,11 @@ def judge(case: dict, col) -> None:  # noqa: ANN001
 def run_shard(desc: dict, col) -> None:  # noqa: ANN001
     for i, case in enumerate(all_cases(desc["tier"], desc["seed"])):
         if i % desc["of"] == desc["shard"]:
-            judge(case, col)
+            guarded(col, case, judge, case, col)
 
 
 def replay(case: dict, col) -> None:  # noqa: ANN001
-    judge(case, col)
+    guarded(col, case, judge, case, col)
 
 
 def finish(col, tier: str) -> None:  # noqa: ANN001
